@@ -10,6 +10,7 @@ import ProfiVerif.Props.C13
 import ProfiVerif.Lemmas.StationProgress
 import ProfiVerif.Lemmas.TimedRing2Step
 import ProfiVerif.Lemmas.TimedRingCrash
+import ProfiVerif.Lemmas.TimedRingAgree
 
 namespace PV.C06
 open PV
@@ -548,5 +549,33 @@ example : CrashRun cfgR MR adrR 1 0 1 netC evsC :=
   successor_crash_recovery cfgR cfgR_ok MR adrR netC viewC ninvC rfl rfl (by decide) evsC (by
     show SchedXT 100 0 evsC
     simp [SchedXT, evsC])
+
+/-! ## Ring level (timed): never two token holders, agreement is kept -/
+
+/-- **Token uniqueness and LAS agreement are kept along every run of the stable timed ring** (any `N ≥ 2`
+station models on the byte-accurate bus of `Model/Net.lean`, with or without unanswered application traffic;
+hypotheses as in `PV.C01.n_station_ring_run_apps`: the ring invariant `NInv` at the start, every station polled
+at least every `P` µs).  Before every event and at the end of the run (`AgreeRun`): at most one station is in a
+token-holding state (`UseToken`, `AwaitDataResponse`, `AwaitStatusResponse`, `PassToken`, `ClaimToken`), and
+every station's ring view is the member list `M` — LAS = `M`, valid, NS and PS the cyclic neighbours of its own
+address (the "agreement is never lost again" half of C02 for the timed system; reaching the agreement from a
+cold start is not proved). -/
+theorem stable_ring_agreement (cfg : Cfg) (hok : cfg.Ok) (hP100 : cfg.P ≤ 100000) (M : List Nat) (adr : Nat → Nat)
+    (n : Net) (v : NView) (h : NInv cfg M adr n v) (evs : List (Nat × Int)) (hs : SchedN cfg.P n v.tl evs) :
+    AgreeRun M adr n evs :=
+  ringN_agree_run hok hP100 M adr evs n v h hs
+
+/-- One state: the ring invariant gives agreement and token uniqueness. -/
+theorem ring_invariant_agrees (cfg : Cfg) (M : List Nat) (adr : Nat → Nat) (n : Net) (v : NView)
+    (h : NInv cfg M adr n v) : Agree M adr n := h.agree
+
+/-! Non-vacuity: the three-station example of C01 with application traffic. -/
+example : AgreeRun PV.C01.M3 PV.C01.adr3 PV.C01.net3a PV.C01.evs3 :=
+  stable_ring_agreement PV.C01.cfg2 PV.C01.cfg2_ok (by decide) PV.C01.M3 PV.C01.adr3 PV.C01.net3a PV.C01.view3a
+    PV.C01.ninv3a PV.C01.evs3
+    (schedN_of_times _ _ _ _ (by
+      show SchedNT 100 3 [0, 70, 68] 70 PV.C01.evs3
+      simp [SchedNT, PV.C01.evs3]
+      decide))
 
 end PV.C06
